@@ -90,6 +90,13 @@ def to_drv(s, sid, rng):
         scn["qshape"] = "" if rng.random() < 0.35 else rng.choice(shapes)
         scn["lform"] = "" if rng.random() < 0.35 else rng.choice(["path", "rel", "url", "mix"])
         scn["lhost"] = 1 if rng.random() < 0.3 else 0
+    # OCI layout: a second put that overlaps this one (well formed puts only, so that what the
+    # peer commits cannot be mistaken for a commit of this put)
+    if cf["dest"] == "ocidir" and cf["len"] > 0 and cf["decl"] in ("none", "right", "digonly", "sizeonly") \
+            and rng.random() < 0.6:
+        scn["peer"] = {"order": rng.choice(["b-stalls", "a-stalls"]), "at": rng.randrange(0, cf["len"] + 1),
+                       "then": rng.choice(["same", "wrong", "err", "short"]), "decl": rng.choice(["same", "none"]),
+                       "client": rng.choice(["same", "other"])}
     if cf["decl"] == "baddig" and rng.random() < 0.5:
         scn["decl"] = "unkalg"              # well formed digest of an unavailable algorithm: same code path
     if cf["len"] == 0 and cf["decl"] in ("right", "digonly"):
@@ -189,6 +196,13 @@ def variants(base, rng, n):
     return out
 
 
+def kept_whole(sc):
+    """the scripted endpoint refuses the single request PUT but keeps its whole body"""
+    total = sc["len"] * sc.get("unit", UNIT) + sc.get("tail", 0)
+    return total > 0 and any(st["on"] == "put" and st["act"] == "refuse" and
+                             st.get("k", 0) * sc.get("unit", UNIT) - sc.get("koff", 0) >= total for st in sc["script"])
+
+
 def load_known(ctx):
     """KNOWN_FINDINGS.json is assembled from known.d/*.json by tools/mkmanifest; read this property's
     fragment directly as well so that the check does not depend on when that was last run."""
@@ -225,21 +239,35 @@ def run(ctx):
         mc.append(ctx.tlc("BlobPutMC", "C05_mc_quick.cfg", timeout=900,
                           label="len 0-4, chunk 1-3, BlobMax -1/2, min none/2 enforced, 2 partial, 1 fault"))
     mc.append(ctx.tlc("BlobPutMC", "C05_live.cfg", timeout=1500, label="termination (liveness)", workers=8))
+    mc.append(ctx.tlc("BlobPutOci", "C05_mc_oci.cfg", timeout=900, workers=4,
+                      label="two overlapping puts on one OCI layout, every interleaving"))
+    # expected counterexamples that do not belong to an open finding are checked at the thorough tier only
+    if thorough:
+        r = ctx.tlc("BlobPutOci", "C05_mc_oci_fixed.cfg", allow_violation=True, workers=4,
+                    label="expected: with one temp name per digest an overlapping put overwrites a committed blob")
+        if r["violated"] != "SuccessMeansStored":
+            raise vlib.ToolError("BlobPutOci.tla does not depend on the unique temp names any more")
+    r = ctx.tlc("BlobPutMC", "C05_mc_known_keptall.cfg", allow_violation=True,
+                label="expected: refused single PUT that left the whole blob in the session (finding C05-3)")
+    if r["violated"] != "O3Strict":
+        raise vlib.ToolError("BlobPut.tla no longer shows finding C05-3 (whole blob kept by a refused PUT); update "
+                             "the spec, the known finding and this check together")
     # expected counterexamples: facts about the design that the checks below rely on
     r = ctx.tlc("BlobPutMC", "C05_mc_known_mount.cfg", allow_violation=True,
                 label="expected: mount short cut returns success for a mismatching descriptor")
     if r["violated"] not in ("O1Strict", "O2Strict"):
         raise vlib.ToolError("BlobPut.tla no longer shows the mount short cut (finding C05-1); update "
                              "the spec, the known finding and this check together")
-    r = ctx.tlc("BlobPutMC", "C05_mc_known_baddig.cfg", allow_violation=True,
-                label="expected (as-found switch IgnoreInvalidDigest): a declared digest that does not validate is ignored")
-    if r["violated"] != "O2Strict":
-        raise vlib.ToolError("BlobPut.tla with IgnoreInvalidDigest = TRUE no longer shows the as-found behaviour of "
-                             "finding C05-2 (fixed by 69e13de)")
-    r = ctx.tlc("BlobPutMC", "C05_mc_s13.cfg", allow_violation=True,
-                label="expected: chunks shrink after a partial acceptance (S13)")
-    if r["violated"] != "NoMinViolation":
-        raise vlib.ToolError("BlobPut.tla no longer shows the shrinking chunk buffer (S13)")
+    if thorough:
+        r = ctx.tlc("BlobPutMC", "C05_mc_known_baddig.cfg", allow_violation=True,
+                    label="expected (as-found switch IgnoreInvalidDigest): a declared digest that does not validate is ignored")
+        if r["violated"] != "O2Strict":
+            raise vlib.ToolError("BlobPut.tla with IgnoreInvalidDigest = TRUE no longer shows the as-found behaviour of "
+                                 "finding C05-2 (fixed by 69e13de)")
+        r = ctx.tlc("BlobPutMC", "C05_mc_s13.cfg", allow_violation=True,
+                    label="expected: chunks shrink after a partial acceptance (S13)")
+        if r["violated"] != "NoMinViolation":
+            raise vlib.ToolError("BlobPut.tla no longer shows the shrinking chunk buffer (S13)")
     lap("design spec checked")
     states = sum(x["distinct"] for x in mc)
     trans = sum(x["generated"] for x in mc)
@@ -247,7 +275,8 @@ def run(ctx):
     # ------------------------------------------------------------ 2. scenarios from TLC
     tlc_scns = []
     for cfg, label in (("C05_gen_core.cfg", "all partial acceptances, small space"),
-                       ("C05_gen_bf.cfg", "no partial acceptance, no fault: descriptors x mount/refuse/fall-back on both "
+                       ("C05_gen_bf.cfg", "no partial acceptance, no fault: refused single PUT keeping 0..all units; "
+                                          "descriptors x mount/refuse/fall-back on both "
                                           "destinations; declared size above / below the length on and off chunk "
                                           "boundaries with no digest / digest of the stream / of the prefix; minimum "
                                           "chunk length x chunk setting on the POST and on the mount reply"),
@@ -297,6 +326,20 @@ def run(ctx):
             model[b["id"]] = model[b["base"]]
             exact_ids.add(b["id"])
 
+    # overlapping layout puts, systematically: who stalls, where, what the other stream is, what it declares
+    n_peer = 0
+    for ln in (2, 3):
+        for decl in ("right", "none", "digonly"):
+            for order in ("b-stalls", "a-stalls"):
+                for at in sorted({0, 1, ln}):
+                    for then in ("same", "wrong", "err", "short"):
+                        for pdecl in ("same", "none"):
+                            n_peer += 1
+                            drv.append({"id": "oci_peer-%d" % n_peer, "dest": "ocidir", "len": ln, "tail": rng.choice([0, 0, 77]),
+                                        "unit": UNIT, "seek": 0, "decl": decl, "alg": rng.choice(["sha256", "sha512"]),
+                                        "exists": "none", "script": [], "chunk": 1, "min": 0, "enforce": 0,
+                                        "peer": {"order": order, "at": at, "then": then, "decl": pdecl,
+                                                 "client": rng.choice(["same", "other"])}})
     scn_file = ctx.path("c05", "scn.jsonl")
     with open(scn_file, "w") as f:
         for d in drv:
@@ -304,6 +347,8 @@ def run(ctx):
     out = ctx.path("c05", "traces.jsonl")
     ctx.run(["c05drv", "-in", scn_file, "-out", out, "-dir", ctx.path("c05", "layouts", "x")], timeout=1500)
     raw = load_traces(out)
+    peers = [t for t in raw if t["id"].endswith("~peer")]
+    raw = [t for t in raw if not t["id"].endswith("~peer")]
     lap("%d scenarios generated and executed on the real code" % len(drv))
     if len(raw) != len(drv):
         raise vlib.ToolError("driver returned %d traces for %d scenarios" % (len(raw), len(drv)))
@@ -318,7 +363,7 @@ def run(ctx):
     for t in raw:
         sc = byid[t["id"]]
         meta = t.get("meta") or {}
-        if "stall" in meta:
+        if "stall" in meta or "peerstall" in meta:
             stalls.append(t["id"])
         if t["id"] in exact_ids:
             s = model[t["id"]]
@@ -339,6 +384,13 @@ def run(ctx):
         kinds.add(json.dumps([sc["dest"], sc["decl"], sc["seek"], sc["exists"], t["header"]["len"],
                               [(e["ev"], e.get("status"), e.get("acc")) for e in t["events"]]]))
 
+    # the overlapping put of a layout scenario is a put of its own, with the same obligations
+    for t in peers:
+        sc = dict(byid[t["id"][:-len("~peer")]])
+        sc["decl"], sc["seek"], sc["script"] = t["header"]["decl"], 0, []
+        adapted += 1
+        traces.append({"id": t["id"], "events": t["events"], "header": t["header"], "scenario": sc})
+
     # S13 (informational): uploads that a destination enforcing its minimum refused after it had
     # accepted a chunk partially; (P) does not demand success there
     s13 = sum(1 for t in traces if t["id"].startswith("gen_s13") and t["events"][-1]["ok"] == 0
@@ -356,6 +408,8 @@ def run(ctx):
             return "mount"
         if "C05-2-invalid-digest-ignored" in open_ids and sc["decl"] in INVALID:
             return "invalid-" + sc["dest"]
+        if "C05-3-whole-blob-kept" in open_ids and kept_whole(sc):
+            return "kept-whole"
         return None
     skipped_known = 0
     classes = {}
@@ -377,7 +431,8 @@ def run(ctx):
                 hb[-1] if hb else "?", t["id"], json.dumps(r["event"])))
         detail = (r["detail"] or "").strip().strip('"') or r["reason"]
         mounted = any(e["ev"] == "post" and e.get("mounted") == 1 for e in t["events"])
-        ctxname = "mount-accepted" if mounted else "invalid-digest" if t["scenario"]["decl"] in INVALID else "upload"
+        ctxname = "mount-accepted" if mounted else "invalid-digest" if t["scenario"]["decl"] in INVALID else \
+            "kept-whole-blob" if kept_whole(t["scenario"]) else "upload"
         sig = "%s:%s:%s" % (t["scenario"]["dest"], detail, ctxname)
         what = "%s at event %s of trace %s (decl=%s seek=%s len=%s)" % (
             detail, json.dumps(r["event"]), t["id"], t["scenario"]["decl"], t["scenario"]["seek"], t["header"]["len"])
